@@ -95,6 +95,12 @@ void LinePrinter::Print(string to_print, LineType type) {
   }
 
   if (smart_terminal_) {
+    if (partial_output_line_) {
+      // The previous line is unterminated command output, not a status line:
+      // keep it instead of printing over it.
+      printf("\n");
+      partial_output_line_ = false;
+    }
     printf("\r");  // Print over previous line, if any.
     // On Windows, calling a C library function writing to stdout also handles
     // pausing the executable when the "Pause" key or Ctrl-S is pressed.
@@ -175,6 +181,8 @@ void LinePrinter::PrintOnNewLine(const string& to_print) {
     PrintOrBuffer(&to_print[0], to_print.size());
   }
   have_blank_line_ = to_print.empty() || *to_print.rbegin() == '\n';
+  if (!console_locked_)
+    partial_output_line_ = !have_blank_line_;
 }
 
 void LinePrinter::SetConsoleLocked(bool locked) {
